@@ -185,6 +185,12 @@ func (m *roaManager) HandleROAEvent(ev *roaEvent) {
 		client.state.RpkiMessages = oc.RpkiMessages{}
 		client.conn = nil
 		go client.tryConnect()
+		if client.timer != nil {
+			// the connection was lost again before End of Data stopped the
+			// timer of the previous loss: left running, that timer would
+			// later delete the ROAs of a session that is back in sync
+			client.timer.Stop()
+		}
 		client.timer = time.AfterFunc(time.Duration(client.lifetime)*time.Second, client.lifetimeout)
 		client.oldSessionID = client.sessionID
 	case roaConnected:
